@@ -7,6 +7,7 @@ import (
 	ethcmn "github.com/ethereum/go-ethereum/common"
 	ethtypes "github.com/ethereum/go-ethereum/core/types"
 	ethcrypto "github.com/ethereum/go-ethereum/crypto"
+	"github.com/ethereum/go-ethereum/rlp"
 	"pgregory.net/rapid"
 
 	agov "github.com/Oneledger/protocol/action/governance"
@@ -1050,6 +1051,18 @@ func (g *Gen) EthLock() txgen.Tx {
 	return g.note(tx)
 }
 
+// selectorAddress returns an address that keeps the head of base and ends in the 4-byte method selector of the
+// call data of the raw ethereum transaction.
+func selectorAddress(raw []byte, base ethcmn.Address) (ethcmn.Address, bool) {
+	tx := new(ethtypes.Transaction)
+	if err := rlp.DecodeBytes(raw, tx); err != nil || len(tx.Data()) < 4 {
+		return base, false
+	}
+	to := base
+	copy(to[16:], tx.Data()[:4])
+	return to, true
+}
+
 func (g *Gen) EthRedeem() txgen.Tx {
 	w := g.W
 	ui, u := g.user("u")
@@ -1059,9 +1072,20 @@ func (g *Gen) EthRedeem() txgen.Tx {
 	n := w.EthNonce[e.Name]
 	w.EthNonce[e.Name]++
 	raw := txgen.EthRedeemRaw(e, n, &sim.LockRedeemContract, amt)
+	selTag := ""
+	if g.pct(g.Strange, "sel-in-to") {
+		// the method selector once more, earlier in the raw bytes: as the tail of the receiving address
+		if to, ok := selectorAddress(raw, sim.LockRedeemContract); ok {
+			raw = txgen.EthRedeemRaw(e, n, &to, amt)
+			selTag = "eth-selector-in-to-address"
+		}
+	}
 	s, strange := g.signerFor(u, "signer")
 	tx := txgen.EthRedeem(s, u.Addr, e.Addr, raw, w.Fee, w.Memo())
 	tx.Tags = []string{mtag}
+	if selTag != "" {
+		tx.Tags = append(tx.Tags, selTag)
+	}
 	if strange {
 		g.tag(&tx, "signer-other")
 	}
@@ -1095,9 +1119,19 @@ func (g *Gen) ERC20Redeem() txgen.Tx {
 	n := w.EthNonce[e.Name]
 	w.EthNonce[e.Name]++
 	raw := txgen.ERC20RedeemRaw(e, n, &sim.ERCLockContract, sim.TestTokenContract, amt)
+	selTag := ""
+	if g.pct(g.Strange, "sel-in-to") {
+		if to, ok := selectorAddress(raw, sim.ERCLockContract); ok {
+			raw = txgen.ERC20RedeemRaw(e, n, &to, sim.TestTokenContract, amt)
+			selTag = "eth-selector-in-to-address"
+		}
+	}
 	s, strange := g.signerFor(u, "signer")
 	tx := txgen.ERC20Redeem(s, u.Addr, e.Addr, raw, w.Fee, w.Memo())
 	tx.Tags = []string{mtag}
+	if selTag != "" {
+		tx.Tags = append(tx.Tags, selTag)
+	}
 	if strange {
 		g.tag(&tx, "signer-other")
 	}
